@@ -6,6 +6,7 @@
 -/
 import NiftyVerif.Lemmas.Descent
 import NiftyVerif.Lemmas.LineSearch
+import NiftyVerif.Lemmas.Lbfgs
 
 namespace NiftyVerif.C16
 open NiftyVerif
@@ -104,6 +105,70 @@ theorem ls_returns_evaluated_point (c : Consts K) (p : Params K) (t : List (Ev K
     exact (runLS_ret c p t s' a hrun).2
   · cases h
 
+/-- non-vacuity (a test, not a proof): a recorded run with one expansion step, a `_zoom` call and success is accepted.
+    φ(α) = (α-3)², φ'(α) = 2(α-3): α = 1 (slope too steep) → α = 2 … here scripted values. -/
+example : acceptsLS (K := Rat)
+    ⟨1, 1/2, 99/100, 101/50, 1/10, 1/5, 10 ^ 100, 1 / 10 ^ 9⟩
+    ⟨1/10000, 1/10, 1000, none, 100, 100, some 1, none, 1, 9, -6⟩
+    [⟨1, .num 4, some (-4)⟩, ⟨2, .num 1, some (-2)⟩, ⟨4, .num 1, none⟩, ⟨3, .num 0, some 0⟩] true 3 = true := by
+  decide +kernel
+
 end linesearch
+
+/-! ## 3. The two L-BFGS variants produce the same direction from the same history.
+  For every field `K`, every `K`-module `V`, every symmetric bilinear `ip`, every history length, every
+  `max_history_length`, every buffer content. -/
+section lbfgs
+open Lbfgs
+variable {K V : Type} [Field K] [AddCommGroup V] [Module K V]
+
+/-- **coefficient form = vector form.** On any matrix `G` that is the Gram matrix of the basis
+    `b = [s_0..s_{m-1}, y_0..y_{m-1}, g]` (the corner `[2m,2m]`, where the code stores `‖g‖` instead of `‖g‖²`, exempt),
+    the code's `Σ_l delta_l • b_l` *is* the two-loop recursion on the pairs `(s_j, y_j)` applied to `g` — for every
+    `m`, without any positivity or non-degeneracy assumption (division by zero is `0` on both sides; in the code both
+    variants raise/produce `nan` there). -/
+theorem vl_eq_two_loop {ip : V → V → K} (hip : IsIP ip) (b : Nat → V) (m : Nat) (G : Nat → Nat → K)
+    (hG : IsGram ip b m G) (h0 : m = 0 → G 0 0 ≠ 0) (al0 : Nat → K) :
+    sumV (2 * m) (fun l => delta G m al0 l • b l) =
+      twoLoopAbs ip b (fun i => b (m + i)) m (b (2 * m)) al0 :=
+  delta_eq_twoLoop hip b m G hG h0 al0
+
+/-- **both use exactly the last `min(k, maxhist)` pairs**, read through the circular buffer at slots
+    `(k - m + j) % maxhist`, `j < m` (oldest first): each direction is the abstract two-loop recursion on that window. -/
+theorem buffer_window {ip : V → V → K} (hip : IsIP ip) (gg : V → K) (mmax : Nat) (hmm : 0 < mmax)
+    (stL : LState V) (x g : V) (alS alL : Nat → K) (stV : VLState K V) (alV : Nat → K)
+    (hG : IsGram ip (basis mmax stV) (histLen mmax stV) (bDotB ip gg mmax stV).1)
+    (h0 : histLen mmax stV = 0 → gg stV.lastgrad ≠ 0) :
+    (let k := stL.k
+     let m := min k mmax
+     let s := if 0 < k then upd stL.s ((k - 1) % mmax) (x - stL.lastx) else stL.s
+     let y := if 0 < k then upd stL.y ((k - 1) % mmax) (g - stL.lastgrad) else stL.y
+     (lbfgsDir ip mmax stL x g alS).1 =
+       twoLoopAbs ip (fun j => s (slot mmax k m j)) (fun j => y (slot mmax k m j)) m g alL) ∧
+    (let m := histLen mmax stV
+     (vlDir ip gg mmax stV alV).1 =
+       twoLoopAbs ip (fun j => stV.s (slot mmax stV.k m j)) (fun j => stV.y (slot mmax stV.k m j)) m
+         stV.lastgrad alV) :=
+  ⟨lbfgsDir_eq_twoLoop ip mmax hmm stL x g alS alL, vlDir_eq_twoLoop hip gg mmax stV alV hG h0⟩
+
+/-- **one call of each variant on the same buffers**: if the VL-BFGS store holds the same `k`, the same `s`/`y`
+    slots (after this call's write) and the same gradient as `L_BFGS`, and its assembled `b_dot_b` is the Gram matrix
+    of its basis, the two directions are equal. -/
+theorem vl_eq_lbfgs_direction {ip : V → V → K} (hip : IsIP ip) (gg : V → K) (mmax : Nat) (hmm : 0 < mmax)
+    (stL : LState V) (stV : VLState K V) (x g : V) (alL alV : Nat → K)
+    (hk : stV.k = stL.k)
+    (hs : stV.s = if 0 < stL.k then upd stL.s ((stL.k - 1) % mmax) (x - stL.lastx) else stL.s)
+    (hy : stV.y = if 0 < stL.k then upd stL.y ((stL.k - 1) % mmax) (g - stL.lastgrad) else stL.y)
+    (hg : stV.lastgrad = g)
+    (hG : IsGram ip (basis mmax stV) (histLen mmax stV) (bDotB ip gg mmax stV).1)
+    (h0 : min stL.k mmax = 0 → gg g ≠ 0) :
+    (vlDir ip gg mmax stV alV).1 = (lbfgsDir ip mmax stL x g alL).1 :=
+  vl_eq_lbfgs_call hip gg mmax hmm stL stV x g alL alV hk hs hy hg hG h0
+
+/-- non-vacuity: `V = K = ℚ` with `ip = (· * ·)` is a lawful inner product -/
+example : IsIP (K := Rat) (V := Rat) (fun a b => a * b) :=
+  ⟨fun u v => mul_comm u v, fun u v w => add_mul u v w, fun c u v => by simp [mul_assoc]⟩
+
+end lbfgs
 
 end NiftyVerif.C16
